@@ -25,8 +25,18 @@ pub struct PaddingFactory {
     md5: String,
 }
 
-/// Global padding factory
-static DEFAULT_FACTORY: std::sync::OnceLock<Arc<PaddingFactory>> = std::sync::OnceLock::new();
+/// Global padding factory. It is replaceable: a server may push a new scheme at any time
+/// during the life of the process, also after the built-in default has been handed out.
+struct DefaultSlot {
+    factory: Option<Arc<PaddingFactory>>,
+    /// true once a server-pushed scheme has replaced the built-in one
+    pushed: bool,
+}
+
+static DEFAULT_FACTORY: std::sync::RwLock<DefaultSlot> = std::sync::RwLock::new(DefaultSlot {
+    factory: None,
+    pushed: false,
+});
 
 impl PaddingFactory {
     /// Create a new PaddingFactory from raw scheme bytes
@@ -56,8 +66,17 @@ impl PaddingFactory {
     /// with creating a new factory. This returns a shared singleton instance.
     #[allow(clippy::should_implement_trait)]
     pub fn default() -> Arc<Self> {
-        DEFAULT_FACTORY
-            .get_or_init(|| {
+        if let Some(factory) = DEFAULT_FACTORY
+            .read()
+            .unwrap_or_else(|e| e.into_inner())
+            .factory
+            .as_ref()
+        {
+            return factory.clone();
+        }
+        let mut slot = DEFAULT_FACTORY.write().unwrap_or_else(|e| e.into_inner());
+        slot.factory
+            .get_or_insert_with(|| {
                 Arc::new(
                     Self::new(DEFAULT_PADDING_SCHEME.as_bytes())
                         .expect("default padding scheme should be valid"),
@@ -66,12 +85,25 @@ impl PaddingFactory {
             .clone()
     }
 
-    /// Update the default padding factory
+    /// Update the default padding factory (a scheme pushed by the server).
+    /// Works any number of times, whether or not `default()` has been called before.
     pub fn update_default(raw_scheme: &[u8]) -> Result<(), String> {
         let factory = Arc::new(Self::new(raw_scheme)?);
-        DEFAULT_FACTORY
-            .set(factory)
-            .map_err(|_| "failed to update default factory".to_string())
+        let mut slot = DEFAULT_FACTORY.write().unwrap_or_else(|e| e.into_inner());
+        slot.factory = Some(factory);
+        slot.pushed = true;
+        Ok(())
+    }
+
+    /// The scheme most recently pushed by a server, if any: what sessions opened from now
+    /// on should announce and use instead of the configured one.
+    pub fn pushed() -> Option<Arc<Self>> {
+        let slot = DEFAULT_FACTORY.read().unwrap_or_else(|e| e.into_inner());
+        if slot.pushed {
+            slot.factory.clone()
+        } else {
+            None
+        }
     }
 
     /// Get the stop value
